@@ -29,7 +29,7 @@ from harness.common import (VERIF, drain_failures, make_orchestrator, parse_json
 from harness.framework import Check
 
 PROP = "C12"
-FLAGS = ["q_rs_chain_start", "q_ts_decorator_start", "q_ts_console_chain_start", "q_fh_header_relative", "q_col_const_unclamped"]
+FLAGS = ["q_rs_chain_start", "q_ts_console_chain_start", "q_fh_header_relative", "q_col_const_unclamped"]
 HEADER = "From TL Require Import Lib.Base Model.LocTypes Gen.LocGen Model.Loc Model.LocRun Actual.LocActual.\n"
 CORPUS = VERIF / "corpus" / PROP
 EXT = {"py": ".py", "ts": ".ts", "js": ".js", "rs": ".rs"}
@@ -262,7 +262,7 @@ def _token_value(tok: str):
     """the value a numeric source token denotes (any of the three languages), None when it is not a number"""
     t = tok
     t = re.sub(r"_?(?:[iu](?:8|16|32|64|128|size)|f32|f64)$", "", t) if not re.match(r"0[xX]", t) else re.sub(r"_?(?:[iu](?:8|16|32|64|128|size))$", "", t)
-    if t.endswith("n") and not re.match(r"0[xX]", t):
+    if t.endswith("n"):
         t = t[:-1]
     t = t.replace("_", "")
     try:
@@ -502,6 +502,19 @@ def s_rustchain(seed, i):
     if r.random() < 0.25:
         t_nonl(doc, r)
     return {"id": f"rustchain{i}", "stream": "rust", "docs": [doc], "config": {}}
+
+
+def s_rustmulti(seed, i):
+    """several Rust files linted in ONE run (one Orchestrator, one rule instance per linter): per-file state of an analyzer
+    must not leak into the next file's positions or quoted snippets"""
+    r = rng_for(seed, PROP, "rustmulti", i)
+    docs = []
+    for j in range(r.choice([2, 3, 3])):
+        c = s_rustchain(seed, 1000 * (i + 1) + j)
+        d = c["docs"][0]
+        d["name"] = f"src/m{j}_{'abc'[j]}.rs"
+        docs.append(d)
+    return {"id": f"rustmulti{i}", "stream": "rust", "docs": docs, "config": {}}
 
 
 def s_dry(seed, i):
@@ -841,11 +854,11 @@ def canon(rule: str, msg: str, fname: str, line_text: str):
     elif rule == "magic-numbers.numeric-literal":
         mm = m("magic." + lk) if "magic." + lk in R else None
         if mm:
-            txt = mm.group("value")
+            txt = mm.group(1)
             if txt in ("True", "False"):
                 return f"magic.{lk}", txt, [txt if lang == "py" else txt.lower()], []
             try:
-                val = int(txt) if re.fullmatch(r"-?\d+", txt) else float(txt)
+                val = int(txt, 0) if re.fullmatch(r"-?(\d+|0[xX][0-9a-fA-F]+)", txt) else float(txt)
             except ValueError:
                 return f"magic.{lk}", "?", [txt], []
             spell = None
@@ -1073,8 +1086,8 @@ def run(tier: str, seed: int, replay: str | None = None) -> int:
     load_known_d(chk)
     scale = chk.budget_scale()
     q = 1 if tier == "quick" else 10
-    counts = {"nesting": 60 * q, "magic": 45 * q, "srp": 45 * q, "rust": 60 * q, "rustchain": 30 * q, "dry": 16 * q, "print": 40 * q, "header": 14 * q, "filelevel": 10 * q}
-    gens = {"nesting": s_nesting, "magic": s_magic, "srp": s_srp, "rust": s_rust, "rustchain": s_rustchain, "dry": s_dry, "print": s_print, "header": s_header, "filelevel": s_filelevel}
+    counts = {"nesting": 60 * q, "magic": 45 * q, "srp": 45 * q, "rust": 60 * q, "rustchain": 30 * q, "rustmulti": 12 * q, "dry": 16 * q, "print": 40 * q, "header": 14 * q, "filelevel": 10 * q}
+    gens = {"nesting": s_nesting, "magic": s_magic, "srp": s_srp, "rust": s_rust, "rustchain": s_rustchain, "rustmulti": s_rustmulti, "dry": s_dry, "print": s_print, "header": s_header, "filelevel": s_filelevel}
     if replay:
         cases = [json.loads(Path(replay).read_text())["violation"]["case"]]
         ext = {"unparsable": [], "unknown_docs": []}
@@ -1128,7 +1141,12 @@ def run(tier: str, seed: int, replay: str | None = None) -> int:
                     chk.violation({"reason": "line / column is not a non-negative integer", "violation": [rule, rel, line, col, msg], "case": slim(case)})
                     continue
                 lt = lines[line - 1] if 1 <= line <= len(lines) else ""
-                cn = canon(rule, msg, rel, lt)
+                try:
+                    cn = canon(rule, msg, rel, lt)
+                except (IndexError, KeyError) as e:      # a message variable was renamed in the source: judged generically, visibly
+                    cn = None
+                    if not any(n.startswith(f"message format of {rule}") for n in chk.notes):
+                        chk.notes.append(f"message format of {rule} changed shape ({type(e).__name__}: {e}): its quoted names are not checked in this run")
                 if cn is None:
                     chk.dist("uncanonicalised:" + rule)
                     cn = ("", "", [], [])
@@ -1202,6 +1220,21 @@ def run(tier: str, seed: int, replay: str | None = None) -> int:
             else:
                 chk.violation({"reason": "a reported violation violates the location property (line / column range, quoted name on the line, header keyword)",
                                **payload, "quoted": rep["quoted"], "header_keywords": rep["hdrs"], "case": slim(case)})
+    # ---- Rust safety linters: the snippet quoted after the colon IS the text of the reported line (stripped)
+    for ci, (case, im) in enumerate(zip(cases, impls)):
+        if "error" in im:
+            continue
+        ftexts = {name: file_lines(t) for name, t in im["texts"].items()}
+        for rule, rel, line, col, msg in im["v"]:
+            if not rule.startswith(("unwrap-abuse.", "clone-abuse.", "blocking-async.")) or rel not in ftexts:
+                continue
+            cn = canon(rule, msg, rel, "")
+            if not cn or not cn[2] or not (isinstance(line, int) and 1 <= line <= len(ftexts[rel])):
+                continue
+            chk.dist("rust-snippet:checked")
+            if cn[2][0] != ftexts[rel][line - 1].strip():
+                chk.violation({"reason": "the source snippet quoted in the message is not the text of the reported line",
+                               "violation": [rule, rel, line, col, msg[:300]], "line_text": ftexts[rel][line - 1], "quoted": cn[2][0], "case": slim(case)})
     # ---- DRY: the reported line is the FIRST line of the block: its normalised text is the normalised text of the first
     #      line of every other occurrence the message names (occurrences are line-for-line equal after normalisation)
     for ci, (case, im) in enumerate(zip(cases, impls)):
